@@ -178,7 +178,7 @@ theorem group_index_guard (groups : List String) (g : Int) :
 /-- The guard as written at the pinned commit lets a negative index through to `groups[g]`:
 the defect D1 (corpus/C10/d1-negative-group.jsonl, fixes/D1.diff). -/
 theorem group_index_guard_fails_on_unfixed_witness :
-    selectGroupUnfixed ["abc-def", "abc", "def"] (-1) = .error .panic := by decide
+    selectGroupUnfixed ["abc-def", "abc", "def"] (-1) = .error .panic := by rfl
 
 /-- No transform, for any configuration (nil configs, unknown types, any group index, any oracle
 answers) and any input value, ends in the panic outcome. -/
@@ -235,9 +235,12 @@ theorem convert_roundtrip_int_bool (o1 o2 : Orc) (i : Int) :
     simp [resolveConvert, formatValid, ConvCfg.getFormat, ioTypeValid, goType, h1, h2, convFn, Except.bind, hi]
 
 /-- The string side does not round-trip in general (documented behaviour, not a defect): "+7"
-parses to 7, which prints as "7". -/
+and "007" both parse to 7, which prints as "7". -/
 theorem convert_string_int_string_not_identity :
-    (parseInt "+7").map fmtInt = some "7" := by decide
+    parseInt (String.ofList ['+', '7']) = some 7 ∧ parseInt (String.ofList ['0', '0', '7']) = some 7 := by
+  refine ⟨?_, ?_⟩
+  · simp only [parseInt, String.toList_ofList]; decide
+  · simp only [parseInt, String.toList_ofList]; decide
 
 /-! ### determinism -/
 
@@ -372,8 +375,8 @@ theorem unrendered_not_applied (xr : V) (tpls : List Tpl) (uf : Bool) (rs : List
           rcases hw with hw | hw
           · subst hw; cases hidx
           · exact hw
-        · simp only [List.mem_cons, List.mem_append, List.mem_singleton] at hw
-          rcases hw with hw | hw | hw
+        · simp only [List.mem_cons, List.mem_append, List.mem_singleton, List.not_mem_nil, or_false] at hw
+          rcases hw with (hw | hw) | hw
           · subst hw; cases hidx
           · exact hw
           · subst hw; cases hidx
@@ -473,7 +476,7 @@ theorem render_keeps_existing_name (k a n : String) (base : Option V) (o : V) (h
         simp only [setOrRemoveMeta, hn, bne_iff_ne, ne_eq, beq_iff_eq, if_false, if_true]
         cases hmd : V.lookup "metadata" m with
         | none =>
-          simp [setMeta, removeMeta, hmd, getMetaStr, V.get?, hlk, V.lookup]
+          simp [setMeta, removeMeta, hmd, getMetaStr, V.get?, hlk, V.lookup, V.eraseKey, V.setKey]
         | some x =>
           obtain ⟨md, hx⟩ := hm x hmd
           subst hx
@@ -484,7 +487,7 @@ theorem render_keeps_existing_name (k a n : String) (base : Option V) (o : V) (h
 
 /-- an optional patch with a transform and a missing source -/
 example : apply { type := "", fromPath := some ⟨"spec.missing", some [.field "spec", .field "missing"]⟩, toPath := none,
-                  combine := none, xfs := [], policy := none, mergeOrc := [] }
+                      combine := none, xfs := [], policy := none, mergeOrc := [] }
     (.obj [("spec", .obj [("a", .num 1)])]) (.obj [("kind", .str "Thing")]) [] =
     ⟨.obj [("spec", .obj [("a", .num 1)])], .obj [("kind", .str "Thing")], none⟩ := by
   apply optional_missing_noop _ _ _ _ ⟨"spec.missing", some [.field "spec", .field "missing"]⟩
@@ -495,7 +498,7 @@ example : apply { type := "", fromPath := some ⟨"spec.missing", some [.field "
 
 /-- a patch that does copy a value (the model is not the constant function) -/
 example : ((apply { type := "", fromPath := some ⟨"spec.a", some [.field "spec", .field "a"]⟩, toPath := none,
-                  combine := none, xfs := [], policy := none, mergeOrc := [] }
+                      combine := none, xfs := [], policy := none, mergeOrc := [] }
     (.obj [("spec", .obj [("a", .num 1)])]) (.obj [("kind", .str "Thing")]) []).cd ==
     .obj [("kind", .str "Thing"), ("spec", .obj [("a", .num 1)])]) = true := by decide
 
@@ -506,9 +509,9 @@ example :
       ("metadata", .obj [("name", .str "my-xr"), ("uid", .str "u"), ("labels", .obj [("crossplane.io/composite", .str "my-xr")])])]
     let base : V := .obj [("apiVersion", .str "example.org/v1"), ("kind", .str "Thing")]
     let bad : Patch := { type := "FromCompositeFieldPath", fromPath := some ⟨"spec.missing", some [.field "spec", .field "missing"]⟩,
-      toPath := none, combine := none, xfs := [], policy := some ⟨some "Required", none⟩, mergeOrc := [] }
+                         toPath := none, combine := none, xfs := [], policy := some ⟨some "Required", none⟩, mergeOrc := [] }
     let t1 : Tpl := { name := some "a", base := some base, patches := [bad], refKind := "", refApiVersion := "", refName := "",
-                      nameGen := .name "gen-0", applyOutcome := .ok }
+                       nameGen := .name "gen-0", applyOutcome := .ok }
     let t2 : Tpl := { t1 with name := some "b", patches := [], nameGen := .name "gen-1" }
     ((composePT xr [t1, t2] false).writes.map (·.target)) = ["xr", "1", "xr"] ∧
     (composePT xr [t1, t2] false).rendered = [false, true] := by decide
